@@ -34,9 +34,9 @@ def classify(record) -> str:
     return (record.get("message") or "").split("::")[0].strip()[:60] or "c01"
 
 
-def _check_grammar(family, holes, perm, maxlen) -> None:
+def _check_grammar(family, holes, perm, maxlen, reverse=False) -> None:
     names = G.NAME_PERMS[perm]
-    g = G.instantiate(family, holes, names)
+    g = G.instantiate(family, holes, names, reverse)
     start = names["S"]
     built = 0
     for smart in (True, False):
@@ -60,7 +60,7 @@ def _check_grammar(family, holes, perm, maxlen) -> None:
         raise Reject()
 
 
-def h_family(h0: int, h1: int, h2: int, h3: int, h4: int, shard=None) -> None:
+def h_family(h0: int, h1: int, h2: int, h3: int, h4: int, rev: bool, shard=None) -> None:
     fam = shard["family"]
     n = G.n_holes(fam)
     dom = len(G.FAMILIES[fam][1])
@@ -73,8 +73,9 @@ def h_family(h0: int, h1: int, h2: int, h3: int, h4: int, shard=None) -> None:
     if "h0" in shard:
         reject_unless(h0 == shard["h0"])
     hs = [realize(x) for x in hs]
+    rev = realize(rev)
     with concrete():
-        _check_grammar(fam, hs[:n], shard.get("perm", 0), shard["maxlen"])
+        _check_grammar(fam, hs[:n], shard.get("perm", 0), shard["maxlen"], rev)
 
 
 def replay_h_family(record):
@@ -83,7 +84,7 @@ def replay_h_family(record):
     shard = record["fixed"]["shard"]
     n = G.n_holes(shard["family"])
     try:
-        _check_grammar(shard["family"], [a[f"h{i}"] for i in range(5)][:n], shard.get("perm", 0), shard["maxlen"])
+        _check_grammar(shard["family"], [a[f"h{i}"] for i in range(5)][:n], shard.get("perm", 0), shard["maxlen"], a.get("rev", False))
     except Violation as e:
         return str(e)
     except BaseException as e:  # noqa (Reject)
@@ -100,7 +101,7 @@ def jobs(tier: str) -> List[Job]:
         dom = len(G.FAMILIES[fam][1])
         if G.n_holes(fam) >= 4:
             for h0 in range(dom):
-                js.append(Job(__name__, "h_family", shard={"family": fam, "maxlen": MAXLEN[tier], "h0": h0}, budget_s=1500 if t else 110, label=f"family:{fam}:h0={h0}", must_exhaust=True))
+                js.append(Job(__name__, "h_family", shard={"family": fam, "maxlen": MAXLEN[tier], "h0": h0}, budget_s=1500 if t else 110, label=f"family:{fam}:h0={h0}", must_exhaust=True, allow_vacuous=True))
         else:
-            js.append(Job(__name__, "h_family", shard={"family": fam, "maxlen": MAXLEN[tier]}, budget_s=1500 if t else 110, label=f"family:{fam}", must_exhaust=True))
+            js.append(Job(__name__, "h_family", shard={"family": fam, "maxlen": MAXLEN[tier]}, budget_s=1500 if t else 110, label=f"family:{fam}", must_exhaust=True, allow_vacuous=True))
     return js
